@@ -273,6 +273,7 @@ func (p *Proxy) serve(c net.Conn, id int) {
 		p.mu.Unlock()
 
 		var reply []byte
+		var pre [][]byte // raw writes performed before dropping the connection
 		drop := false
 		if fault == "" && p.Hook != nil {
 			if r, d, handled := p.Hook(idx, req); handled {
@@ -296,14 +297,12 @@ func (p *Proxy) serve(c net.Conn, id int) {
 			// declare a frame larger than 16 MiB, then drop the connection
 			var l [4]byte
 			binary.BigEndian.PutUint32(l[:], (16<<20)+1)
-			c.Write(l[:])
-			c.Write([]byte{CodeSuccess})
+			pre = [][]byte{l[:], {CodeSuccess}}
 			drop = true
 		case "truncate":
 			var l [4]byte
 			binary.BigEndian.PutUint32(l[:], 64)
-			c.Write(l[:])
-			c.Write([]byte{CodeIdentities, 0, 0})
+			pre = [][]byte{l[:], {CodeIdentities, 0, 0}}
 			drop = true
 		case "close":
 			drop = true
@@ -311,10 +310,14 @@ func (p *Proxy) serve(c net.Conn, id int) {
 			reply = p.answer(req, code)
 		}
 		fr.ReplyLen = len(reply)
+		// the record is visible before any byte of the reply: observers that see the reply see the record
 		p.mu.Lock()
 		p.frames = append(p.frames, fr)
 		p.mu.Unlock()
 		if drop {
+			for _, b := range pre {
+				c.Write(b)
+			}
 			p.inflight.Add(-1)
 			return
 		}
